@@ -254,8 +254,10 @@ func (s *state) step(b *ssa.BasicBlock, ii int, in ssa.Instruction) bool {
 		}
 		t := s.clone()
 		t.pc = append(t.pc, c)
+		t.loopBodyHints(b, b.Succs[0])
 		t.exec(b.Succs[0], b, 0)
 		s.pc = append(s.pc, not(c))
+		s.loopBodyHints(b, b.Succs[1])
 		s.exec(b.Succs[1], b, 0)
 		return false
 	case *ssa.Jump:
@@ -363,6 +365,8 @@ func (s *state) load(pv ssa.Value, t types.Type, in ssa.Instruction) Val {
 	p := s.get(pv)
 	if !isRawRef(p.S[0]) {
 		s.safety("nil-deref", not(eq(p.S[0], "0")), in)
+	} else {
+		s.checkReads(p.S[1], sizes.Sizeof(t), in)
 	}
 	v := s.loadAt(t, p.S[0], p.S[1], p.Fld)
 	if p.Fld != nil && u.eng.rawFieldOK(p.Fld.heap) {
@@ -530,6 +534,17 @@ func (s *state) convert(d *ssa.Convert) Val {
 		}
 	}
 	if len(u.m.leaves(ft)) == len(u.m.leaves(tt)) {
+		// unsafe.Pointer -> *T: reject type punning of typed objects (the
+		// type-partitioned heap cannot model two views of one object)
+		if tp, ok := tt.Underlying().(*types.Pointer); ok && fok && fb.Kind() == types.UnsafePointer && !isRawRef(x.S[0]) {
+			if src, ok := d.X.(*ssa.Convert); ok {
+				if sp, ok := src.X.Type().Underlying().(*types.Pointer); ok && !types.Identical(sp.Elem(), tp.Elem()) {
+					if !(isNamed(sp.Elem(), "reflect", "SliceHeader")) {
+						panic(engineErr(fmt.Sprintf("%s: pointer cast %v -> %v re-types a typed object (not modelled)", u.eng.posStr(d.Pos()), sp, tp)))
+					}
+				}
+			}
+		}
 		return Val{T: tt, S: x.S, Fld: x.Fld}
 	}
 	panic(engineErr(fmt.Sprintf("unsupported conversion %v -> %v", ft, tt)))
@@ -647,4 +662,64 @@ func nilTest(p Val) string {
 		return eq(p.S[1], "(_ bv0 64)")
 	}
 	return eq(p.S[0], "0")
+}
+
+// checkReads: a raw load of n bytes at addr must lie inside one of the
+// ranges of the unit's `reads mem(lo, hi)` clause (if it has one)
+func (s *state) checkReads(addr string, n int64, in ssa.Instruction) {
+	u := s.u
+	if u.ct == nil || len(u.ct.readsMem) == 0 || n == 0 {
+		return
+	}
+	e := s.contractEnv(u.ct, u.fn, s.entryArgs(), nil)
+	e.st = s.old.scratch()
+	e.old = s.old
+	var alts []string
+	nn := u.m.offConst(n)
+	for _, c := range u.ct.readsMem {
+		e.what = "reads " + c.src
+		lo := u.mat(e.eval(c.exprs[0]), types.Typ[types.Uintptr]).S[0]
+		hi := u.mat(e.eval(c.exprs[1]), types.Typ[types.Uintptr]).S[0]
+		alts = append(alts, fmt.Sprintf("(and (bvule %s %s) (bvuge (bvsub %s %s) %s) (bvule (bvsub %s %s) (bvsub (bvsub %s %s) %s)))", lo, hi, hi, lo, nn, addr, lo, hi, lo, nn))
+	}
+	s.oblige("reads", "", "raw load stays inside the declared reads set", or(alts...), in.Pos(), s.site(in), false)
+}
+
+// loopBodyHints runs the `loop k inbody use ...` proof steps when control
+// goes from a loop header into the loop body
+func (s *state) loopBodyHints(hdr, succ *ssa.BasicBlock) {
+	if !isLoopHeader(hdr) {
+		return
+	}
+	fn := hdr.Parent()
+	li := loopFor(fn, hdr)
+	if li == nil || !li.blocks[succ] {
+		return
+	}
+	fc := s.u.eng.contractFor(fn)
+	if fc == nil || fc.loops[li.ord] == nil || len(fc.loops[li.ord].bodyUses) == 0 {
+		return
+	}
+	e := s.contractEnv(nil, fn, nil, nil)
+	e.useNames = true
+	e.pkg = fn.Pkg.Pkg
+	if lc := s.inLoop[hdr]; lc != nil {
+		s.curLoopPre = lc.pre
+	}
+	pos := hdr.Instrs[0].Pos()
+	if li.stmt != nil {
+		pos = li.stmt.Pos()
+	}
+	for _, uc := range fc.loops[li.ord].bodyUses {
+		for _, x := range uc.exprs {
+			e.what = "loop inbody use " + uc.src
+			s.useHint(e, x, pos, fmt.Sprintf("%s:loop%d:body", funcKey(fn), li.ord))
+		}
+	}
+	s.curLoopPre = nil
+}
+
+func isNamed(t types.Type, pkg, name string) bool {
+	nt, ok := t.(*types.Named)
+	return ok && nt.Obj().Name() == name && nt.Obj().Pkg() != nil && nt.Obj().Pkg().Path() == pkg
 }
